@@ -312,6 +312,18 @@ def directed_malformed(start_id):
                             "frames": [{"bs": 4, "subs": [{"type": ty, "order": order, "method": 1, "po": 0,
                                                            "params": [["rawrice", k_, q, low]], "ov": {"res": [0]}}]}],
                             "pcm": [[0, 1, -1, 2]]})
+    # multi-byte coded frame / sample numbers whose continuation bytes do not start with the bits 10 (11xxxxxx, 00xxxxxx, 01xxxxxx), every
+    # length class, every continuation position, fixed and variable blocking; checksums valid
+    for num in (0x80, 0x7FF, 0x800, 0xFFFF, 0x10000, 0x200000, 0x4000000, 0x7FFFFFFF):
+        nbytes = 2 if num < 0x800 else 3 if num < 0x10000 else 4 if num < 0x200000 else 5 if num < 0x4000000 else 6
+        for pos in sorted({1, nbytes - 1, (nbytes + 1) // 2}):
+            for x in (0x40, 0x80, 0xC0):
+                k += 1
+                out.append({"id": k, "channels": 1, "bps": 16, "rate": 44100, "bpscode": "hdr", "ratecode": "table", "selfcheck": False,
+                            "class": "coded-number-continuation", "variable": (k % 2 == 0), "total_known": (k % 3 != 0),
+                            "frames": [{"bs": 16, "number": num, "contxor": [pos, x], "subs": [{"type": "verbatim"}]},
+                                       {"bs": 16, "number": min(num + (16 if k % 2 == 0 else 1), 0x7FFFFFFF), "subs": [{"type": "verbatim"}]}],
+                            "pcm": [[(i * 31) % 211 - 100 for i in range(32)]]})
     # a block of 1..15 samples that is not the last one, under every coding of its length (8-bit and 16-bit field), in fixed- and
     # variable-blocking streams with a declared total (then it must be refused) and without one (then nothing says it is not the last)
     for short in (1, 2, 10, 14, 15):
